@@ -58,6 +58,16 @@ CHECKS = {
             "ArrayBuilder under four buffer-growth settings; length, to_list(snapshot), type-as-a-function-of-state, immutability of "
             "earlier snapshots and the position of errors are checked after every command.",
             "explicit-state exploration of command histories with state merging, reference-model oracle stepped in lock-step"),
+    "C15": ("fault_enumeration", "E3", "Output: every primitive dtype at its limits, strings with every escape class, strided buffers x 13 "
+            "structural contexts, nesting depth 1..64(400), the value universe x encodings, NaN/inf under all 8 string subsets, complex with "
+            "and without complex_record_fields: tojson compact/pretty, string and FILE* with every write-buffer size, parsed back and "
+            "compared with the reference value; from_json(to_json(a)). Input: a 100-document alphabet x 3 whitespace styles x raw/escaped "
+            "non-ASCII x string sets, streams of 0..3 documents x 5 separators, FromJsonString and FromJsonFile with every read-buffer size "
+            "and 0..3 bytes of shift, against a reference stream parser + reference builder + the real ArrayBuilder fed from_iter's commands. "
+            "Faults: every prefix, every single-byte substitution (13-byte alphabet quick, all 256 thorough), insertion and deletion at every "
+            "position, and pairs of substitutions on short texts: still-valid text -> reference value, malformed -> error and no array. "
+            "ak.to_json/ak.from_json (files, partitions, complex_record_fields) at tier L3.",
+            "exhaustive fault enumeration (truncation/corruption points x buffer boundaries) over real FromJson*/tojson executions with a reference parser/builder oracle"),
     "C16": ("exploration", "E4", "Every array of the type menu x encodings through to_buffers/from_buffers (form_key, key_format, raw-bytes "
             "containers, partitions), pickle, from_numpy/to_numpy over shapes x dtypes x memory layouts and masks, to_arrow/from_arrow x "
             "32-bit options; round-trip value, type and (where promised) option-ness compared by the reference layout interpreter.",
@@ -80,8 +90,8 @@ ENGINES = [
      "serves_properties": ["C04", "C16"],
      "kind_free_text": "the repository's own Python layer (/repo/src/awkward) imported unmodified on top of a pure-Python mirror of "
                        "awkward._ext that forwards every behaviour to the freshly built libawkward"},
-    {"name": "E3", "path": "checks/c14_builders.py model/refbuilder.py mirror/builder.py bridge/akb_builder.cpp checks/c19_forth.py model/refforth.py mirror/forth.py bridge/akb_forth.cpp",
-     "serves_properties": ["C14", "C19"],
+    {"name": "E3", "path": "checks/c14_builders.py model/refbuilder.py mirror/builder.py bridge/akb_builder.cpp checks/c19_forth.py model/refforth.py mirror/forth.py bridge/akb_forth.cpp checks/c15_json.py mirror/jsonio.py bridge/akb_json.cpp",
+     "serves_properties": ["C14", "C15", "C19"],
      "kind_free_text": "history explorer: breadth-first search over command sequences against stateful C++ objects with a reference "
                        "model stepped in lock-step"},
     {"name": "E2", "path": "mc/e2.py model/kernelspec.py checks/c13_kernels.py checks/c13_raw.py",
